@@ -15,7 +15,9 @@ import Driver.Pred
 import Driver.Cache
 import Driver.Names
 import Driver.Fusion
+import Driver.Term
 import Driver.Cols
+import Driver.Partitions
 import Driver.Layers
 import Driver.Drivers
 open Dx Dx.Proto
@@ -48,7 +50,9 @@ def handlers : List (List String → Option String) :=
   , Dx.Drv.Cache.handle
   , Dx.Drv.Names.handle
   , Dx.Drv.Fusion.handle
+  , Dx.Drv.Term.handle
   , Dx.Drv.Cols.handle
+  , Dx.Drv.Partitions.handle
   , Dx.Drv.Layers.handle
   , Dx.Drv.Drivers.handle
   ]
